@@ -360,6 +360,9 @@ def activate_domain_and_interventions(
     if isinstance(expression, Probability):
         if not isinstance(expression, PopulationProbability):
             raise TypeError
+        if not set(expression.children) - interventions:
+            # the intervened variables have probability one under their own intervention
+            return One()
         return PopulationProbability(
             population=domain,
             distribution=Distribution.safe(set(expression.children) - interventions),
